@@ -22,6 +22,9 @@ class Gen:
         # picks its two operand registers (and their order) afresh, so the same qubit id (in particular the
         # electron, id 0) is addressed through different Q registers by different gates of one subroutine
         self.qregs = [self.qa, self.qb] + ([opts["perm"]] if opts.get("perm") else [])
+        self.late = opts.get("late")     # a Q register that first occurs AFTER the first carbon-carbon gate
+        self.late_live = False
+        self.cc_emitted = False
 
     # ---- emission
     def e(self, *t):
@@ -90,6 +93,8 @@ class Gen:
     def gate1(self):
         self.e("set", self.qa, self.qid())
         self.single(self.qa)
+        while self.rng.random() < 0.3:      # back to back on the same register, no `set` in between
+            self.single(self.qa)
 
     def single(self, r):
         rng = self.rng
@@ -117,6 +122,42 @@ class Gen:
             self.e("set", rb, b)
             self.e("set", ra, a)
         self.e("g2", g, ra, rb)
+        if a != 0 and b != 0:
+            self.cc_emitted = True
+        while rng.random() < 0.35:          # single-qubit gates directly behind the two-qubit gate, on one of
+            self.single(rng.choice([ra, rb]))   # its operand registers, without a `set` (and no label) in between
+
+    def ce_then_gate(self):
+        """carbon -> electron cnot immediately followed by a single-qubit gate on the electron's register"""
+        rng = self.rng
+        ra, rb = (rng.sample(self.qregs, 2) if len(self.qregs) > 2 else (self.qa, self.qb))
+        self.e("set", ra, rng.randint(1, self.nc))
+        self.e("set", rb, 0)
+        self.e("g2", "cnot" if "cnot" in self.o.get("g2", ["cnot"]) else "cphase", ra, rb)
+        self.single(rb)
+        if rng.random() < 0.4:
+            self.single(rng.choice([ra, rb]))
+
+    def cc_burst(self):
+        """an unrolled run of carbon-carbon gates (more than there are spare Q registers)"""
+        rng = self.rng
+        for _ in range(rng.randint(15, 17)):
+            a, b = rng.sample(range(1, self.nc + 1), 2)
+            self.e("set", self.qa, a)
+            self.e("set", self.qb, b)
+            self.e("g2", rng.choice(self.o.get("g2", ["cnot", "cphase"])), self.qa, self.qb)
+        self.cc_emitted = True
+
+    def late_use(self):
+        """a Q register the program starts using only after its first carbon-carbon gate (which may have
+        borrowed it as scratch), written once at top level and read again after later gates without re-write"""
+        rng = self.rng
+        if not self.cc_emitted or (not self.late_live and self.depth > 0):
+            return self.gate2() if self.nc >= 2 and rng.random() < 0.7 else self.gate1()
+        if not self.late_live or (self.depth == 0 and rng.random() < 0.25):
+            self.e("set", self.late, self.qid())
+            self.late_live = True
+        self.single(self.late)
 
     def ce_pair(self):
         """two carbon->electron gates of one subroutine that address the electron (id 0) through
@@ -290,7 +331,10 @@ class Gen:
         if len(self.qregs) > 2:
             w += [("ce_pair", 2)]
         if self.o.get("nonq"):
-            w += [("epr_move", 4)]
+            w += [("epr_move", 2)]
+        w += [("ce_then_gate", 2)]
+        if self.late:
+            w += [("late_use", 5)]
         tot = sum(x[1] for x in w)
         r = rng.uniform(0, tot)
         for name, wt in w:
@@ -317,13 +361,46 @@ def gen_program(rng, opts=None, size=None):
             opts["perm"] = None
         else:
             opts["perm"] = next(("Q", i) for i in range(16) if ("Q", i) not in pool)
+    if opts.get("burst") or opts.get("late"):
+        nc = max(nc, 2)
+    if opts.get("loop0"):
+        opts["late"] = None
+    if opts.get("late") is True:
+        taken = set(pool) | {opts.get("lreg"), opts.get("perm")}
+        opts["late"] = next(("Q", i) for i in range(16) if ("Q", i) not in taken)
     g = Gen(rng, nc, pool, opts)
-    g.prologue()
+    if opts.get("loop0"):
+        # hand-written shape: the loop label is line 0.  First pass: R15 is still unwritten, `bez` on an
+        # unwritten register is not taken, the set-up runs; later passes jump over it.
+        g.place("L0")
+        g.e("set", ("C", 1), 1)
+        g.e("br1", "bez", ("R", 15), "Lbody")
+        g.prologue()
+        g.e("set", ("R", 15), 0)
+        g.e("set", ("R", 14), 0)
+        g.e("set", ("R", 13), rng.randint(2, 3))
+        g.place("Lbody")
+        g.depth = 1
+    else:
+        g.prologue()
     n = size if size is not None else rng.randint(2, 7)
-    for _ in range(n):
+    burst_at = rng.randrange(n) if opts.get("burst") else None
+    for k in range(n):
+        if k == burst_at:
+            g.cc_burst()
         g.stmt()
     if g.ql and rng.random() < 0.7:
         g.luse()   # the register is still live after the two-qubit gates of the body
+    if g.late and g.late_live:
+        a, b = rng.sample(range(1, nc + 1), 2)   # one more carbon-carbon gate after the register came into use ...
+        g.e("set", g.qa, a)
+        g.e("set", g.qb, b)
+        g.e("g2", rng.choice(opts.get("g2", ["cnot", "cphase"])[:2]), g.qa, g.qb)
+        g.single(g.late)   # ... and the register is read again afterwards, not re-written
+    if opts.get("loop0"):
+        g.e("arith", False, ("R", 14), ("R", 14), ("C", 1))
+        g.e("br2", "blt", ("R", 14), ("R", 13), "L0")
+        g.depth = 0
     tail = rng.random()
     if tail < 0.35:
         g.depth = 1
@@ -335,7 +412,8 @@ def gen_program(rng, opts=None, size=None):
         g.e("ret_arr", 0)
         g.e("ret_reg", ("M", 0))
     prog = g.resolve()
-    return prog, dict(ncarbons=nc, script_len=g.script_len, pool=[g.qa, g.qb], lreg=g.ql, perm=opts.get("perm"), nonq=opts.get("nonq"))
+    return prog, dict(ncarbons=nc, script_len=g.script_len, pool=[g.qa, g.qb], lreg=g.ql, perm=opts.get("perm"), nonq=opts.get("nonq"),
+                      late=opts.get("late"), loop0=opts.get("loop0"), burst=opts.get("burst"))
 
 
 def mentioned_regs(prog):
@@ -378,10 +456,12 @@ def scratch_candidates(prog):
     return out
 
 
-def sdk_shaped(prog):
-    """the transpiler-owned registers (scratch candidates, C15) do not occur in the program"""
+def sdk_shaped(prog, late=None):
+    """the transpiler-owned registers (scratch candidates, C15) do not occur in the program.  `late`: a Q
+    register the program deliberately starts using after a gate that may have borrowed it (it is written
+    at top level before every read, and from then on counts as used, so later gates borrow another one)"""
     m = mentioned_regs(prog)
-    return not (scratch_candidates(prog) & m) and ("C", 15) not in m
+    return not ((scratch_candidates(prog) - {late}) & m) and ("C", 15) not in m
 
 
 def tracked_at(prog, i):
